@@ -130,6 +130,24 @@ func buildStates(r *vlib.Run, fams []family) []*state {
 		}
 	}
 	r.Set("source_multisets_with_same_preprocessed_file_merged", merged)
+	for _, bf := range bulkFiles {
+		var src []int
+		for _, lc := range bf {
+			for i := 0; i < lc[1]; i++ {
+				src = append(src, lc[0])
+			}
+		}
+		pre, err := preprocess(srcText(src))
+		if err != nil {
+			vlib.Infra("preprocessor rejects bulk file %s: %v", bulkName(bf), err)
+		}
+		s := &state{src: src, name: bulkName(bf), preText: pre, pre: sortedCopy(splitLines(pre)), bulk: true}
+		if len(s.pre) != len(src) {
+			vlib.Infra("bulk file %s: %d source lines preprocessed to %d lines (duplicates dropped?)", s.name, len(src), len(s.pre))
+		}
+		s.idx = len(out)
+		out = append(out, s)
+	}
 	return out
 }
 
